@@ -76,7 +76,11 @@ func VerifH_params() {
 	m := &method{desc: &fakeMethod{full: "vf.S.P", in: in, out: in}, name: "/vf.S/P"}
 	msg := newFakeMsg(in)
 	values := url.Values{}
-	kind := vfChoice(14)
+	kind := vfChoice(15)
+	if kind == 14 {
+		vfParamsFloat(m, msg)
+		return
+	}
 	var v1, v2 string
 	switch kind {
 	case 0:
@@ -106,7 +110,7 @@ func VerifH_params() {
 		values["mp.c"] = []string{"x"} // path through a map field
 	case 9:
 		key := vfAsciiString(1 + vfLen(3))
-		known := key == "a" || key == "n" || key == "e" || key == "list" || key == "sub" || key == "subs" || key == "mp" || key == "i" || key == "bo" || key == "l" || key == "u"
+		known := key == "a" || key == "n" || key == "e" || key == "list" || key == "sub" || key == "subs" || key == "mp" || key == "i" || key == "bo" || key == "l" || key == "u" || key == "fl" || key == "db"
 		vfAssume(!known)
 		for j := 0; j < len(key); j++ {
 			vfAssume(key[j] != '.')
@@ -292,4 +296,40 @@ var vfBoundaryInts = []struct {
 	{"9223372036854775808", 0, false},
 	{"-9223372036854775808", -9223372036854775808, true},
 	{"-9223372036854775809", 0, false},
+}
+
+// vfParamsFloat: float / double query parameters on concrete texts (floats are concrete in the
+// engine; the text is converted by the host's encoding/json): in-range text is converted to its
+// value, text beyond the range of the field's type or not a number is rejected - never coerced
+// to infinity or to another value.
+func vfParamsFloat(m *method, msg *fakeMsg) {
+	cases := []struct {
+		key, text string
+		ok        bool
+		want      float64
+	}{
+		{"fl", "1.5", true, 1.5},
+		{"fl", "-0.25", true, -0.25},
+		{"fl", "1e39", false, 0}, // beyond float32
+		{"fl", "-1e39", false, 0},
+		{"fl", "abc", false, 0},
+		{"db", "2.5", true, 2.5},
+		{"db", "1e39", true, 1e39}, // fine for a double
+		{"db", "1e400", false, 0},  // beyond float64
+		{"db", "1.5.2", false, 0},
+	}
+	c := cases[vfChoice(len(cases))]
+	ps, err := m.parseQueryParams(url.Values{c.key: []string{c.text}})
+	if err == nil {
+		err = ps.set(msg)
+	}
+	if !c.ok {
+		vfCheck(err != nil, "text that is not a number in the range of the float field's type was accepted (coerced) instead of rejected")
+		vfCover("float-rejected")
+		return
+	}
+	vfCheck(err == nil, "a float text within the range of the field's type was rejected")
+	v, set := msg.vals[c.key]
+	vfCheck(set && v.Float() == c.want, "float query parameter not converted to its value")
+	vfCover("float")
 }
